@@ -130,8 +130,13 @@ def ensure_facts(cfgs, repo=None, log=None):
                     f.write(str(time.time()))
             # keep the cache small: drop fact dirs other than the newest 6
             root = os.path.join(CACHE, 'facts')
-            ds = sorted((os.path.getmtime(os.path.join(root, d)), d) for d in os.listdir(root))
-            for _, d in ds[:-24]:
+            ds = []
+            for d in os.listdir(root):
+                try:
+                    ds.append((os.path.getmtime(os.path.join(root, d)), d))
+                except OSError:
+                    pass     # removed concurrently by another worker
+            for _, d in sorted(ds)[:-24]:
                 if d != h:
                     shutil.rmtree(os.path.join(root, d), ignore_errors=True)
         finally:
